@@ -230,7 +230,7 @@ pub fn auth_result(r: &Result<usize, error::Token>) -> Value {
     }
 }
 
-fn canon_failed(v: &Value) -> Vec<(u64, u64)> {
+pub fn canon_failed(v: &Value) -> Vec<(u64, u64)> {
     // authorizer checks first, then blocks in order (the order authorize() reports them)
     let mut l: Vec<(u64, u64)> = v
         .as_array()
@@ -242,7 +242,7 @@ fn canon_failed(v: &Value) -> Vec<(u64, u64)> {
     l
 }
 
-fn listed_failed(v: &Value) -> Vec<(u64, u64)> {
+pub fn listed_failed(v: &Value) -> Vec<(u64, u64)> {
     v.as_array()
         .unwrap()
         .iter()
